@@ -141,6 +141,16 @@ def run_check(pid, tier, seed, only_replay=None):
     notes = []
     known = load_known()
 
+    if only_replay and os.path.basename(only_replay).startswith("fuzz_"):
+        from .c17_fuzz import replay as fuzz_replay
+        st, detail = fuzz_replay(only_replay)
+        print(("REPLAY-OK " if st == "ok" else "REPLAY-VIOLATION ") + st + " " + detail)
+        return 0 if st == "ok" else 1
+    if only_replay and only_replay.endswith(".xml"):
+        from .c17_faults import replay_xml
+        st, detail = replay_xml(only_replay)
+        print(("REPLAY-VIOLATION " if st in ("died", "hang") else "REPLAY-OK ") + st + " " + detail)
+        return 1 if st in ("died", "hang") else 0
     if only_replay:
         n, msg = confirm(only_replay, engines, times=1)
         print(("REPLAY-VIOLATION " if n else "REPLAY-OK ") + msg)
@@ -149,6 +159,8 @@ def run_check(pid, tier, seed, only_replay=None):
     jobs = [j for j in spec["jobs"] if tier in j.get("tiers", ("quick", "thorough"))]
     # 1. build everything needed (variants in parallel; each build is itself parallel)
     need = sorted({(j["engine"], j["variant"]) for j in jobs if j.get("engine")})
+    for j in jobs:
+        j.setdefault("variant", "san")
     variants = sorted({v for _, v in need} | {v for j in jobs for v in j.get("need_variants", [])})
     with ThreadPoolExecutor(max(1, len(variants))) as ex:
         list(ex.map(build.ensure_lib, variants))
@@ -274,6 +286,10 @@ def run_check(pid, tier, seed, only_replay=None):
                 known_hits.append((k, msg))
             else:
                 violations.append((path, msg))
+        for kid, msg in res.get("known_hits", []):
+            for kf in known:
+                if kf.get("id") == kid and kf.get("status") == "open":
+                    known_hits.append((kf, msg))
         if res.get("exhaustive"):
             merged["exhaustive"] = True
 
